@@ -1890,6 +1890,18 @@ def check_patterns(ctx, stats, hist):
             continue
         for i, case in enumerate(gen()):
             fam.append((f"c07:{name}#{i}", case))
+    # builder C07's std-tuple family (every size 2..16, refutable pattern at a position of the tuple, components
+    # pairwise different enums): these programs are checked together with the embedded std modules
+    gen = getattr(c07, "tuple_family", None)
+    if gen is None:
+        ctx.assumptions.append("vlib/c07.tuple_family not available: the std-tuple part of the pattern-gate family was not run")
+    else:
+        for i, case in enumerate(gen()):
+            n = len(case["tuple_of"])
+            pos = next((k for k, q in enumerate(case["pats"][0][1]) if q != ("W",)), 0)
+            if ctx.quick and pos not in (0, n // 2, n - 1):
+                continue
+            fam.append((f"c07:tuple_family#{i}(size {n}, position {pos})", case))
     srcs = [c07.render_case(case) for _, case in fam]
     model = common.run_exec(common.driver_bin("C07"), [], [c07.case_line(case, src) for (_, case), src in zip(fam, srcs)])[1]
     progs = []
@@ -1897,7 +1909,8 @@ def check_patterns(ctx, stats, hist):
         main = "" if case.get("home") is None else "class Main {\n  function main(): unit = Process.println(\"m\")\n}\n"
         if case.get("home") is None:
             src = src.replace("class Main {\n", "class Main {\n  function main(): unit = Process.println(\"m\")\n")
-        progs.append({"sources": {"Main": src + main}, "entry": "Main", "std": False, "compile": True})
+        with_std = bool(case.get("tuple_of"))
+        progs.append({"sources": {"Main": src + main}, "entry": "Main", "std": with_std, "compile": not with_std})
     answers = eval_programs(progs)
     for (label, case), m, pr, ans in zip(fam, model + [""] * len(fam), progs, answers):
         stats["pat"] += 1
@@ -1913,6 +1926,8 @@ def check_patterns(ctx, stats, hist):
                           {"protocol": "pat", "case": label, "model": m, "broken": "vlib/c06.py pat_family vs Model/Useful.lean"}, no_input=True)
             continue
         verdict = gate_verdict(ans, "Main")
+        if pr["std"] and verdict.startswith("odd") and ans.get("check") == "done" and not ans["errors"]:
+            verdict = "accept"          # std-tuple cases are type-checked only (no second pass through compile_sources)
         if expect_reject and verdict == "reject":
             stats["pat_rejected"] += 1
         elif not expect_reject and verdict == "accept":
